@@ -593,6 +593,11 @@ mod fixtures {
             fx!(std tpl; ("\"{s}\""); ["s": st("ab")]; []),
             fx!(std tpl; ("{{\t}}{x}\x7e"); ["x": V::Int(42)]; []),
             fx!(nostd notpl; ("{#[emit::fmt(\">4\")] z: 7}\t{{{w: \"}\"}"); ["z": V::Int(7), "w": st("}")]; []),
+            // an escaped backslash directly followed by a letter that would itself form an escape (Windows paths)
+            fx!(std tpl; ("C:\\temp\\new\\root {s}"); ["s": st("ab")]; []),
+            fx!(std tpl; ("\\n\\t\\r\\0"); []; []),
+            fx!(std tpl; ("a\\\\tb\\\n{x}"); ["x": V::Int(42)]; []),
+            fx!(std tpl; ("\\\"\\'{s}\\\\"); ["s": st("ab")]; []),
         ]
     }
 }
